@@ -55,6 +55,14 @@ RULE = ("start arrays of 1..5 rows x 1..5 small integers (rectangular and not; n
         "(vii) NaN / inf (oracle only): float64 / float32 arrays holding NaN, +inf, -inf; all six comparison operators "
         "with a scalar on the right and on the left (reflected), with a RaggedArray, negated, .all() / .any(), a[mask] "
         "and masked writes a[a >= k] = v, a[k <= a] = v, a[a <= b] = v; expected values are Python's float comparisons. "
+        "(viii) index dtypes and broadcasting: writes a[R, C] = v and reads a[R, C] through index ndarrays of dtype int8 / "
+        "uint8 / int32 / uint32 / uint64 (kept by the caller, used again after an append) on arrays with 2-3 rows of 130..290 "
+        "elements or 130..300 rows of 1..2 elements, and of dtype int16 / uint16 on arrays with rows of 32770+ / 65538+ elements "
+        "or that many rows (oracle only; the per-element read path is skipped there), so that negative row + number of rows, "
+        "negative column + row length, row start + column leave the range of the index dtype; forms pairs / vector+scalar / "
+        "scalar+vector / n against 1 / 1 against n (NumPy broadcasting of the two index vectors), dealt from a deck; element "
+        "values are distinct (0..n-1), so a write or read that lands in another row shows.  The general stream also draws "
+        "a[[r..], [c]] = v and a[[r], [c..]] = v (index lists of different lengths, one entry against n).  "
         "non-trivial := >= 2 rows, >= 3 successful writes, at least one through the row view (route A) and one through "
         "the flat data (route B); or any case of the three streams with >= 1 successful write")
 TRUSTED = ["translator/tr_ragged_ops.py (+ tr_ragged.py for the flat-offset arithmetic): the write path's structure is "
@@ -64,7 +72,8 @@ TRUSTED = ["translator/tr_ragged_ops.py (+ tr_ragged.py for the flat-offset arit
            "effect.  Local computations on the way are pinned as text; the meaning of each effect statement "
            "(Model/RaggedOpsGen.v: it assigns exactly that slot) and the NumPy semantics of the row-view write are "
            "trusted",
-           "modelled not verified: NumPy fancy assignment (in order, last write wins), broadcasting of a scalar / "
+           "modelled not verified: NumPy fancy assignment (in order, last write wins), pairing of the two index vectors by "
+           "broadcasting (cells_of: equal lengths element by element, one entry against all), broadcasting of a scalar / "
            "length-1 value, np.concatenate, object-array row storage; ra.where's flat->(row,col) conversion is C05's",
            "aliasing clauses (copy never aliases the caller's data; operators return new objects and never alter "
            "operands) are heap facts: checked at run time by mutating source / result, not proved"]
@@ -74,7 +83,7 @@ ASSUMPTIONS = ["integer element data, every row non-empty, slice steps non-zero;
                "(reported in the message only), and never assigns through __setitem__ a value that the array's promoted "
                "type does not hold (NumPy casts such a value on assignment, as for an ndarray)",
                "never generated (model not claimed there): a RaggedArray assigned to a single integer row index, "
-               "length-1 column lists broadcast against longer row lists, augmented assignment on an empty selection, "
+               "index lists of unequal lengths none of which has one entry, augmented assignment on an empty selection, "
                "operands of different total size"]
 SHARD = 60
 
@@ -180,11 +189,18 @@ def _cells(rows, rsel, csel):
                 raise Rej("IndexError")
             out = [(r, csel[1]) for r in rl]
         else:
-            if len(rl) != len(csel[1]):
-                raise Rej("Reject")
+            # the two index lists are paired as NumPy pairs index arrays, by broadcasting: equally long element by
+            # element, a one-entry list against every entry of the other
+            cl = csel[1]
+            if len(rl) != len(cl):
+                if 1 not in (len(rl), len(cl)):
+                    raise Rej("Reject")
+                if not rl or not cl:
+                    raise Rej("IndexError")          # an empty list is a float64 index array
+                rl, cl = (list(rl) * len(cl), list(cl)) if len(rl) == 1 else (list(rl), list(cl) * len(rl))
             if not rl:
                 raise Rej("IndexError")
-            out = list(zip(rl, csel[1]))
+            out = list(zip(rl, cl))
     res = []
     for r, c in out:
         rr = _wrap(n, r)
@@ -407,6 +423,12 @@ def _gen_op(rng, rows, bad):
             elif rsel[0] == "li":
                 lim = maxlen if bad else min(len(r) for r in rows)
                 csel = ["li", [rng.randint(-lim, lim - 1) for _ in rsel[1]]]
+                qb = rng.random()
+                if qb < 0.2:          # one column entry against every row entry
+                    csel = ["li", csel[1][:1]]
+                elif qb < 0.4:        # one row entry against 1..3 column entries
+                    rsel = ["li", rsel[1][:1]]
+                    csel = ["li", [rng.randint(-lim, lim - 1) for _ in range(rng.randint(1, 3))]]
             else:
                 lim = maxlen if bad else min(len(r) for r in rows)
                 csel = ["li", [rng.randint(-lim, lim - 1) for _ in range(rng.randint(1, 3))]]
@@ -651,6 +673,9 @@ DT_WIDE = {"bool": [True, False], "uint8": [200, 255, 128], "int16": [300, -3276
            "float32": [0.5, 2.25, -0.75, 1.5, 2.0 ** 20 + 0.5, -0.375],
            "float64": [0.1, 1 / 3, 1e-3, 2.0 ** 31 + 0.5, 0.2, -2.7, 1e-9, 123456.789]}
 DTS = ["bool", "uint8", "int16", "int32", "int64", "float32", "float64"]
+# (array type, type of the first append) dealt in every run: the widenings named by ESSENTIAL_TAGS
+DT_FORCED = [("float32", "float64"), ("float32", "float64"), ("int32", "int64"), ("int16", "float64"), ("bool", "int16"),
+             ("bool", "float32"), ("int64", "float64"), ("uint8", "int32")]
 
 
 def _dt_pick(rng, dt, wide=0.5):
@@ -691,16 +716,18 @@ def _dt_obs(rng, rows):
     return [{"t": "obs", "q": q} for q in out[:rng.randint(1, 3)]]
 
 
-def _stream_dtype(rng, maxitems):
+def _stream_dtype(rng, maxitems, force=None):
     """arrays of every element type; appends (RaggedArray / flat-built RaggedArray / list or tuple of typed arrays / nested
     lists, [] rows included) of rows in another element type, mostly one the array's own type cannot hold; then writes of
     values the promoted type holds.  Values are exact in the types they are given in, so every view must return them."""
-    base = rng.choice(DTS)
+    # force = (element type of the array, element type of the first append): a few cases per run are dealt, so that
+    # the widenings the essential tags name occur under every seed
+    base = force[0] if force else rng.choice(DTS)
     n = rng.randint(1, 3)
     rect = rng.random() < 0.4
     L = rng.randint(1, 3)
     rows = [[_dt_pick(rng, base, 0.15) for _ in range(L if rect else rng.randint(1, 4))] for _ in range(n)]
-    q = rng.random()
+    q = rng.random() * (0.85 if force else 1.0)
     if q < 0.45:
         init = {"kind": "rows", "rows": rows, "np": True, "dt": base}
     elif q < 0.85:
@@ -721,14 +748,17 @@ def _stream_dtype(rng, maxitems):
             how = rng.choice(["ra", "raflat", "arrays", "arrays", "tuple", "lists", "lists"])
             wider = [d for d in DTS if np.result_type(tracked, d) != tracked]
             dt = rng.choice(wider) if wider and rng.random() < 0.75 else rng.choice(DTS)
+            forced = force is not None and step == 0
+            if forced:
+                how, dt = rng.choice(["ra", "raflat", "arrays", "tuple"]), force[1]
             m = rng.randint(1, 3)
             vs, dts = [], []
             for j in range(m):
-                d = dt if how == "raflat" or rng.random() < 0.8 else rng.choice(DTS)
+                d = dt if how == "raflat" or forced or rng.random() < 0.8 else rng.choice(DTS)
                 if how == "lists":
                     d = rng.choice(["bool", "int64", "float64"]) if d not in ("bool", "int64", "float64") else d
-                ln = 0 if rng.random() < 0.15 else (L if rect and rng.random() < 0.6 else rng.randint(1, 3))
-                row = [_dt_pick(rng, d, 0.6) for _ in range(ln)]
+                ln = 0 if rng.random() < 0.15 and not forced else (L if rect and rng.random() < 0.6 else rng.randint(1, 3))
+                row = [_dt_pick(rng, d, 1.0 if forced else 0.6) for _ in range(ln)]
                 if how == "lists" and d == "float64" and row and all(float(x).is_integer() for x in row):
                     row[0] = 0.5
                 vs.append(row)
@@ -1166,7 +1196,8 @@ def _pool_op(rng, e, rows):
     rsel = ["li", list(e["rs"])]
     csel = ["int", e["cs"][0]] if e["form"] == "ps" else ["li", list(e["cs"])]
     q = rng.random()
-    v = ["s", 50 + rng.randint(0, 9)] if q < 0.5 else ["v", [50 + rng.randint(0, 9) for _ in e["rs"]]]
+    cnt = len(e["rs"]) if e["form"] == "ps" else max(len(e["rs"]), len(e["cs"]))
+    v = ["s", 50 + rng.randint(0, 9)] if q < 0.5 else ["v", [50 + rng.randint(0, 9) for _ in range(cnt)]]
     return ["Set2D", rsel, csel, v]
 
 
@@ -1214,6 +1245,149 @@ def _stream_ixarg(rng, maxitems):
     return {"init": init, "items": items, "stream": "ixarg", "pool": pool}
 
 
+# ----------------------------------------------------------------------------- index dtypes / broadcasting stream
+IXR = {"int8": (-2 ** 7, 2 ** 7 - 1), "uint8": (0, 2 ** 8 - 1), "int16": (-2 ** 15, 2 ** 15 - 1),
+       "uint16": (0, 2 ** 16 - 1), "int32": (-2 ** 31, 2 ** 31 - 1), "uint32": (0, 2 ** 32 - 1),
+       "int64": (-2 ** 63, 2 ** 63 - 1), "uint64": (0, 2 ** 64 - 1)}
+IXW_SMALL = ["int8", "uint8", "int32", "uint32", "uint64"]
+IXW_BIG = ["int16", "uint16"]
+IXW_FORMS = ["pairs", "pairs", "ps", "el", "bc", "br"]
+COQ_MAX = 600          # arrays of the index-dtype stream with more elements: oracle only
+READS_MAX = 5000       # above, the per-element read path a[r, c] for every (r, c) is skipped
+
+
+def _ixw_top(dt):
+    return IXR[dt][1] if dt in ("int8", "uint8", "int16", "uint16") else 127
+
+
+def _ixw_lens(rng, dt, shape):
+    """row lengths with which resolving an index held in dtype dt leaves the dtype's range: rows longer than its
+    maximum ("long") or more rows than its maximum ("many"); the 32/64-bit types get the int8 sizes."""
+    top = _ixw_top(dt)
+    if shape == "small":
+        return [rng.randint(1, 5) for _ in range(rng.randint(1, 4))]
+    if shape == "long":
+        nr = 2 if top != 127 or rng.random() < 0.6 else 3
+        lo, hi = (132, 280 if nr == 2 else 190) if top == 127 else (260, 290) if top == 255 else (top + 5, top + 400)
+        return [rng.randint(lo, hi)] * nr if rng.random() < 0.3 else [rng.randint(lo, hi) for _ in range(nr)]
+    nr = rng.randint(top + 5, top + (40 if top < 300 else 300))
+    lens = [1] * nr if rng.random() < 0.25 else [rng.choice([1, 1, 2]) for _ in range(nr)]
+    while top < 300 and sum(lens) > 560:
+        lens[lens.index(2)] = 1
+    return lens
+
+
+def _ixw_pick(rng, n, dt, mode=None):
+    """an index into a sequence of length n that dtype dt holds: "neg" a small negative one (signed types), "top" one
+    of the largest, "bad" one outside (None if the dtype holds none), else any"""
+    dlo, dhi = IXR[dt]
+    lo, hi = max(-n, dlo), min(n - 1, dhi)
+    if mode == "bad":
+        cands = [x for x in (n, -n - 1) if dlo <= x <= dhi]
+        return rng.choice(cands) if cands else None
+    if mode == "neg" and lo < 0:
+        x = rng.choice([-1, -1, -2, -3])
+    elif mode == "top":
+        x = rng.choice([hi, hi, hi - 1, rng.randint(hi // 2, hi)])
+    else:
+        x = rng.choice([lo, hi, 0, -1, rng.randint(lo, hi), rng.randint(lo, hi)])
+    return min(max(x, lo), hi)
+
+
+def _ixw_entry(rng, lens, dt, shape, form):
+    """a pool entry (index objects kept by the caller) of dtype dt whose resolution leaves the dtype's range"""
+    nr = len(lens)
+    signed = IXR[dt][0] < 0
+    rmode = ("neg" if signed else "top") if shape == "many" else None
+    cmode = ("neg" if signed else "top") if shape == "long" else None
+    bad = rng.random() < 0.06
+
+    def row(first):
+        if not signed and shape == "long" and first:
+            return nr - 1
+        return _ixw_pick(rng, nr, dt, rmode if first or rng.random() < 0.5 else None)
+
+    def col(n, first):
+        if bad and first:
+            x = _ixw_pick(rng, n, dt, "bad")
+            if x is not None:
+                return x
+        return _ixw_pick(rng, n, dt, cmode if first or rng.random() < 0.5 else None)
+    m = rng.randint(2, 3) if form in ("bc", "br") else rng.randint(1, 3)
+    if form in ("el", "br"):
+        r = row(True)
+        cs = [col(lens[r], i == 0) for i in range(m)]
+        rs = [r] * m if form == "el" else [r]
+    else:
+        rs = [row(i == 0) for i in range(m)]
+        if form in ("ps", "bc"):
+            c0 = col(min(lens[r] for r in rs), True)
+            cs = [c0] * m if form == "ps" else [c0]
+        else:
+            cs = [col(lens[r], i == 0) for i, r in enumerate(rs)]
+    return {"form": form, "rs": rs, "cs": cs, "dt": dt, "view": form == "pairs" and rng.random() < 0.3}
+
+
+def _stream_ixwide(rng, spec):
+    """writes a[R, C] = v and reads a[R, C] through index ndarrays of a narrow dtype (kept by the caller) on arrays
+    whose rows are longer / more numerous than that dtype counts, and through index vectors of different lengths
+    (one entry against n: NumPy broadcasting); distinct element values, so a write that lands elsewhere shows"""
+    dt, shape, form = spec
+    lens = _ixw_lens(rng, dt, shape)
+    rows, p = [], 0
+    for L in lens:
+        rows.append(list(range(p, p + L)))
+        p += L
+    if p <= COQ_MAX and rng.random() < 0.3:
+        init = {"kind": "rows", "rows": rows, "np": rng.random() < 0.5}
+    else:
+        init = _flat_init(rows, rng.random() < 0.5)
+    big = p > COQ_MAX          # tens of thousands of elements / rows: one entry, read - write - read
+    pool = [_ixw_entry(rng, lens, dt, shape, form)]
+    if not big and rng.random() < 0.5:
+        pool.append(_ixw_entry(rng, lens, dt, shape, rng.choice(IXW_FORMS)))
+    items, cur = [], rows
+
+    def write(j):
+        nonlocal cur
+        op = _pool_op(rng, pool[j], cur)
+        items.append({"t": "op", "op": op, "pool": j})
+        try:
+            cur = shadow_apply(cur, op)
+        except Rej:
+            pass
+    for j in range(len(pool)):
+        if big or rng.random() < 0.5:
+            items.append({"t": "poolread", "pool": j})
+        write(j)
+        items.append({"t": "poolread", "pool": j})
+    if not big and rng.random() < 0.5:
+        vs = [[700 + i for i in range(rng.randint(1, 3))]]
+        cur = _track(items, cur, ["Append", vs, rng.choice(["ra", "lists"])])
+        j = rng.randrange(len(pool))
+        write(j)
+        items.append({"t": "poolread", "pool": j})
+    if p <= COQ_MAX:
+        n = len(cur)
+        r = rng.randint(-n, n - 1)
+        items.append({"t": "obs", "q": ["Elem", r, rng.randint(-len(cur[r]), len(cur[r]) - 1)]})
+        items.append({"t": "obs", "q": ["Row", rng.randint(-n, n - 1)]})
+    return {"init": init, "items": items, "stream": "ixwide", "pool": pool}
+
+
+def _ixwide_cases(rng, n, big):
+    deck = [(dt, sh, f) for f in IXW_FORMS for sh in ("long", "many") for dt in IXW_SMALL]
+    deck += [(dt, "small", f) for f in ("bc", "br", "bc", "br") for dt in ("int8", "int64", "uint8", "int16")]
+    bigdeck = [(dt, sh, f) for f in ("pairs", "ps", "el", "bc") for sh in ("long", "many") for dt in IXW_BIG]
+    return [_stream_ixwide(rng, deck[i % len(deck)]) for i in range(n)] + \
+        [_stream_ixwide(rng, bigdeck[i % len(bigdeck)]) for i in range(big)]
+
+
+def _ninit(c):
+    i = c["init"]
+    return len(i["data"]) if i["kind"] == "flat" else sum(len(x) for x in i["rows"])
+
+
 def generate(rng, tier):
     ncases = 320 if tier == "quick" else 2600
     maxitems = 12 if tier == "quick" else 40
@@ -1250,12 +1424,15 @@ def generate(rng, tier):
             cases.append(f(rng, maxitems))
     for _ in range(140 if tier == "quick" else 1200):
         cases.append(_stream_dtype(rng, maxitems))
+    for force in DT_FORCED * (1 if tier == "quick" else 4):
+        cases.append(_stream_dtype(rng, maxitems, force))
     for _ in range(120 if tier == "quick" else 1000):
         cases.append(_stream_ixarg(rng, maxitems))
     for _ in range(120 if tier == "quick" else 1000):
         cases.append(_stream_rowless(rng))
     for _ in range(150 if tier == "quick" else 1200):
         cases.append(_stream_nan(rng, maxitems))
+    cases += _ixwide_cases(rng, 76, 8) if tier == "quick" else _ixwide_cases(rng, 760, 48)
     return cases
 
 
@@ -1301,8 +1478,12 @@ def _scramble(arr):
 def _snap(a):
     # robust against a corrupted object (scalars in row slots, arrays in cells): such content is reported, not raised
     sv = _tonum if _NUM[0] else _toint
-    return {"data": [sv(x) for x in list(a._data)],
-            "arr": [[sv(x) for x in np.atleast_1d(np.asarray(r, dtype=object))] for r in a._array],
+
+    def fast(x):
+        # plain 1-d integer arrays (the usual case; large in the index-dtype stream): same values, converted at once
+        return not _NUM[0] and isinstance(x, np.ndarray) and x.ndim == 1 and x.dtype.kind in "iu"
+    return {"data": a._data.tolist() if fast(a._data) else [sv(x) for x in list(a._data)],
+            "arr": [r.tolist() if fast(r) else [sv(x) for x in np.atleast_1d(np.asarray(r, dtype=object))] for r in a._array],
             "lens": [_toint(x) for x in list(a.lengths)]}
 
 
@@ -1333,7 +1514,10 @@ def _reads(a):
     rec("iter", lambda: [[_cv(x) for x in np.asarray(r).tolist()] for r in a])                    # _array
     rec("rowslice", lambda: [_cv(x) for x in a[0:n]._data.tolist()])                               # _array -> ctor
     rec("flatten", lambda: [_cv(x) for x in a.flatten().tolist()])                                 # _data
-    rec("elems", lambda: [[_cv(a[r, c][0]) for c in range(int(a.lengths[r]))] for r in range(n)])  # _data + lengths
+    if a.size > READS_MAX:
+        out["elems"] = "skipped-large"
+    else:
+        rec("elems", lambda: [[_cv(a[r, c][0]) for c in range(int(a.lengths[r]))] for r in range(n)])  # _data + lengths
     rec("full2d", lambda: _snap(a[:, :]))                                                          # _data + lengths
     rec("rowreads", lambda: [[_cv(x) for x in np.asarray(a[r]).tolist()] for r in range(n)])      # _array
     rec("starts", lambda: [_cv(x) for x in a.starts.tolist()])
@@ -1410,7 +1594,8 @@ def _do_op(a, op, RaggedArray, ixobj=None):
     if k in ("Set2D", "Aug2D"):
         rsel, csel = op[1], op[2]
         ri = _rowidx(rsel, len(str(op)) % 2)
-        ci = _pysl(csel[1:]) if csel[0] == "sl" else csel[1] if csel[0] == "int" else list(csel[1])
+        ci = _pysl(csel[1:]) if csel[0] == "sl" else csel[1] if csel[0] == "int" else \
+            np.array(csel[1]) if len(csel[1]) and len(str(op)) % 3 == 0 else list(csel[1])
         if k == "Set2D":
             val, ra = _mk_value(op[3], RaggedArray)
             a[ri, ci] = val
@@ -1634,23 +1819,46 @@ def run_impl(c):
 def _expect_reads(rows):
     flat = [x for r in rows for x in r]
     lens = [len(r) for r in rows]
-    st = [sum(lens[:i]) for i in range(len(lens))]
+    st, acc = [], 0
+    for L in lens:
+        st.append(acc)
+        acc += L
     return {"iter": rows, "rowslice": flat, "flatten": flat, "elems": rows,
             "full2d": {"data": flat, "arr": rows, "lens": lens}, "rowreads": rows, "starts": st, "len": len(rows),
             "size": len(flat), "max": max(flat), "min": min(flat)}
+
+
+def _sh(x, n=900):
+    """long values (arrays of the index-dtype stream) abbreviated in messages"""
+    t = str(x)
+    return t if len(t) <= n else t[:n // 2] + " ... " + t[-n // 2:]
+
+
+def _diff(got, exp):
+    """first flat positions where two long flat lists differ"""
+    if not (isinstance(got, list) and isinstance(exp, list)) or len(exp) <= 60:
+        return ""
+    if len(got) != len(exp):
+        return " [lengths %d / %d]" % (len(got), len(exp))
+    d = [(i, got[i], exp[i]) for i in range(len(exp)) if got[i] != exp[i]][:8]
+    return " [first differences (position, implementation, model): %s]" % d
 
 
 def _check_state(tag, snap, reads, rows, out):
     flat = [x for r in rows for x in r]
     lens = [len(r) for r in rows]
     if [x for r in snap["arr"] for x in r] != snap["data"] or [len(r) for r in snap["arr"]] != snap["lens"]:
-        out.append(("slots-coherent", "%s: _data %s / _array %s / lengths %s disagree" % (tag, snap["data"], snap["arr"], snap["lens"])))
+        out.append(("slots-coherent", "%s: _data %s / _array %s / lengths %s disagree" % (
+            tag, _sh(snap["data"]), _sh(snap["arr"]), _sh(snap["lens"]))))
     if snap["data"] != flat or snap["arr"] != rows or snap["lens"] != lens:
-        out.append(("matches-list-model", "%s: slots %s, list-of-rows model says %s" % (tag, snap, rows)))
+        out.append(("matches-list-model", "%s: slots %s, list-of-rows model says %s%s" % (
+            tag, _sh(snap), _sh(rows), _diff(snap["data"], flat))))
     exp = _expect_reads(rows)
     for k, v in exp.items():
+        if reads.get(k) == "skipped-large" and len(flat) > READS_MAX:
+            continue
         if reads.get(k) != v:
-            out.append(("public-reads", "%s: read path %s gives %s, list-of-rows model says %s" % (tag, k, reads.get(k), v)))
+            out.append(("public-reads", "%s: read path %s gives %s, list-of-rows model says %s" % (tag, k, _sh(reads.get(k)), _sh(v))))
 
 
 def oracle(c, r):
@@ -1692,7 +1900,7 @@ def oracle(c, r):
                 # a rejected write must leave the object as it was (whatever the model thinks of the write)
                 prev = r["steps"][i - 1] if i > 0 and c["items"][i - 1]["t"] == "op" else None
                 if {k: rec[k] for k in ("data", "arr", "lens")} != _state_before(r, c, i):
-                    out.append(("reject-unchanged", "%s raised %s but changed the array to %s" % (tag, rec.get("msg"), _snap_of(rec))))
+                    out.append(("reject-unchanged", "%s raised %s but changed the array to %s" % (tag, rec.get("msg"), _sh(_snap_of(rec)))))
             if rec["e"] != exp_e:
                 out.append(("outcome", "%s: implementation %s, list-of-rows model %s" % (tag, rec.get("msg") or "succeeded", exp_e or "succeeds")))
                 # follow the implementation so that one disagreement is reported once
@@ -1713,8 +1921,10 @@ def oracle(c, r):
             got = rec["val"] if "val" in rec else {"err": rec.get("err")}
             if got != exp:
                 out.append(("index-arrays-reused", "%s: a[R, C] with the caller's index arrays R=%s C=%s on rows %s gives %s (%s), "
-                            "the list-of-rows model %s" % (tag, e["rs"], e["cs"] if e["form"] != "ps" else e["cs"][0], tgt, got,
-                                                           rec.get("msg"), exp)))
+                            "the list-of-rows model %s" % (tag, e["rs"], e["cs"] if e["form"] != "ps" else e["cs"][0],
+                                                           _sh(tgt) if len(tgt) < 40 else "<%d rows of lengths %d..%d>" % (
+                                                               len(tgt), min(map(len, tgt)), max(map(len, tgt))),
+                                                           got, rec.get("msg"), exp)))
         elif it["t"] == "selw":
             row = list(rows[it["r"]])
             row[it["c"]] = it["v"]
@@ -1962,6 +2172,8 @@ def _scaled(c, r):
 def coq_check(c, r):
     if _special(c) or "steps" not in r:
         return None
+    if c.get("stream") == "ixwide" and _ninit(c) > COQ_MAX:
+        return None
     if c.get("stream") == "dtype":
         c, r = _scaled(c, r)
     exp = ["(VRA %s)" % _slots(r["init"])]
@@ -1986,7 +2198,7 @@ def coq_check(c, r):
 
 
 def coq_show(c):
-    if _special(c):
+    if _special(c) or (c.get("stream") == "ixwide" and _ninit(c) > COQ_MAX):
         return "tt"
     if c.get("stream") == "dtype":
         c = _scaled(c, None)[0]
@@ -2089,6 +2301,37 @@ def _special_tags(c, r):
     return sorted(t)
 
 
+def _ixw_tags(e, lens):
+    """which steps of resolving the caller's index arrays (dtype e["dt"]) leave that dtype's range on an array with
+    these row lengths"""
+    t = set()
+    dt = e["dt"]
+    if not dt:
+        return t
+    top = IXR[dt][1]
+    nr = len(lens)
+    starts = [0]
+    for l in lens[:-1]:
+        starts.append(starts[-1] + l)
+    rs, cs = list(e["rs"]), list(e["cs"])
+    if len(rs) != len(cs):
+        rs, cs = (rs * len(cs), cs) if len(rs) == 1 else (rs, cs * len(rs))
+    rdt = None if e["form"] == "el" else dt        # "el": the row is a Python int, "ps": the column is
+    cdt = None if e["form"] == "ps" else dt
+    for r0, c0 in zip(rs, cs):
+        if rdt and r0 < 0 and r0 + nr > top:
+            t.add("ixw-negrow-leaves-" + dt)
+        r1 = r0 + nr if r0 < 0 else r0
+        if not 0 <= r1 < nr:
+            continue
+        if cdt and c0 < 0 and c0 + lens[r1] > top:
+            t.add("ixw-negcol-leaves-" + dt)
+        c1 = c0 + lens[r1] if c0 < 0 else c0
+        if cdt and 0 <= c1 < lens[r1] and starts[r1] + c1 > top:
+            t.add("ixw-offset-leaves-" + dt)
+    return t
+
+
 def tags(c, r):
     if _special(c):
         return _special_tags(c, r)
@@ -2106,13 +2349,20 @@ def tags(c, r):
     listbuilt_rect = len(lens) > 1 and len(set(lens)) == 1 and not i["np"]
     prev = None
     seen_before, appended, slice_written = set(), False, False
+    curlens = list(lens)
+    if c.get("stream") == "ixwide":
+        t.add("ixw-coq" if _ninit(c) <= COQ_MAX else "ixw-oracle-only-large")
     for it, rec in zip(c["items"], r.get("steps", [])):
         if it["t"] == "poolread":
             t.add("pool-read" + ("-second-array" if "rows2" in it else ""))
+            if c.get("stream") == "ixwide" and "rows2" not in it:
+                t |= {x.replace("ixw-", "ixw-read-") for x in _ixw_tags(c["pool"][it["pool"]], curlens)}
             continue
         if it["t"] == "op" and "pool" in it:
             e = c["pool"][it["pool"]]
             t.add("pool-write-" + e["form"])
+            if c.get("stream") == "ixwide":
+                t |= _ixw_tags(e, curlens)
             if rec.get("e") is None:
                 t.add("pool-write-ok")
                 if appended:
@@ -2140,6 +2390,11 @@ def tags(c, r):
                 t.add("rect-listbuilt-2dslice-rowread")
             continue
         k = it["op"][0]
+        if "lens" in rec:
+            curlens = list(rec["lens"])
+        if rec.get("e") is None and k in ("Set2D", "Aug2D") and it["op"][1][0] == "li" and it["op"][2][0] == "li" \
+                and len(it["op"][1][1]) != len(it["op"][2][1]):
+            t.add("2d-li-li-broadcast-" + ("col" if len(it["op"][2][1]) == 1 else "row"))
         if rec.get("e") is None:
             t.add("ok-" + k)
             route = "A" if k in ROUTE_A else "B" if k in ROUTE_B else "append"
@@ -2182,6 +2437,12 @@ ESSENTIAL_TAGS = ["start-rect", "start-ragged", "ctor-rows", "ctor-flat", "ctor-
                   "dt-write-after-widening"] + ["dt-start-" + d for d in DTS] + [
                   "stream-ixarg", "pool-write-pairs", "pool-write-ps", "pool-write-el", "pool-write-ok", "pool-write-after-append",
                   "pool-index-view", "pool-index-negative", "pool-index-int32", "pool-read", "pool-read-second-array",
+                  "stream-ixwide", "ixw-coq", "ixw-oracle-only-large", "pool-write-bc", "pool-write-br",
+                  "pool-index-int8", "pool-index-uint8", "pool-index-int16", "pool-index-uint16", "pool-index-uint32",
+                  "pool-index-uint64", "ixw-negcol-leaves-int8", "ixw-negrow-leaves-int8", "ixw-negcol-leaves-int16",
+                  "ixw-negrow-leaves-int16", "ixw-offset-leaves-uint8", "ixw-offset-leaves-uint16",
+                  "ixw-read-negcol-leaves-int8", "ixw-read-negrow-leaves-int8",
+                  "2d-li-li-broadcast-col", "2d-li-li-broadcast-row",
                   "stream-rowless", "rowless-produced", "rowless-src-sl2-sl", "rowless-src-sl2-int", "rowless-src-sl2-li",
                   "rowless-src-rows", "rowless-src-ctor", "rowless-src-ctor_flat", "rowless-then-bin", "rowless-then-cmp",
                   "rowless-then-not_cmp", "rowless-then-append", "rowless-then-set_all", "rowless-then-binself",
